@@ -11,7 +11,7 @@ import (
 )
 
 var c07Floor = []string{"cte.1", "cte.chain2", "cte.chain3", "cte.twice.join", "cte.twice.union", "cte.twice.insub", "cte.selector", "derived", "derived.where",
-	"subq.nested", "subq.root", "subq.in", "subq.agg", "exists", "exists.outer", "subq.root-correlated", "derived.join", "subq.with", "agg.stages", "exists.dual", "inner.agg", "inner.order", "inner.filter", "cte.mixedcase", "exists.outer.marker", "exists.sparse", "subq.in.null-left", "exists.shadow", "exists.outer.marker-is", "cte.named-like-its-table", "cte.nested-with", "cte.nested-with.twice", "subq.in.qualified-item", "subq.notin"}
+	"subq.nested", "subq.root", "subq.in", "subq.agg", "exists", "exists.outer", "subq.root-correlated", "derived.join", "subq.with", "agg.stages", "exists.dual", "inner.agg", "inner.order", "inner.filter", "cte.mixedcase", "exists.outer.marker", "exists.sparse", "subq.in.null-left", "exists.shadow", "exists.outer.marker-is", "cte.named-like-its-table", "cte.nested-with", "cte.nested-with.twice", "cte.union-chain3", "subq.in.qualified-item", "subq.notin"}
 
 func init() {
 	fw.Register(&fw.Prop{
@@ -356,6 +356,11 @@ func c07Run(c *fw.Case) {
 			}
 			k := cur.Cols[0].Name
 			outer = fmt.Sprintf("SELECT %s FROM %s UNION ALL SELECT %s FROM %s", k, last, k, last)
+			// chains of three and four branches, every branch reading the CTE
+			for extra := c.Intn(3); extra > 0; extra-- {
+				outer += fmt.Sprintf(" %s SELECT %s FROM %s", gen.Pick(c.R, []string{"UNION ALL", "UNION ALL", "UNION"}), k, last)
+				feats = append(feats, "cte.union-chain3")
+			}
 		case "cte.twice.insub":
 			sc := cur.ColsOf(gen.KNum, gen.KStr)
 			if len(sc) == 0 {
